@@ -319,9 +319,20 @@ def aggregate(mod, cid, tier, seed, n, nshards, recs, counters, cut, ended, dead
         ldir = os.path.join(OUT_ROOT, "out", "last")
         os.makedirs(ldir, exist_ok=True)
         with open(os.path.join(ldir, "%s.%s.jsonl" % (cid, tier)), "w") as lf:
+            kept = 0
             for r in recs:
-                if r.get("status") != "ok":
-                    lf.write(json.dumps(r, default=str) + "\n")
+                if r.get("status") != "ok" and kept < 3000:      # bounded: thorough tiers have thousands of known-finding records
+                    kept += 1
+                    line = json.dumps(r, default=str)
+                    if len(line) > 20000:
+                        r = dict(r)
+                        for k in ("detail", "sample"):
+                            if isinstance(r.get(k), str):
+                                r[k] = r[k][:4000]
+                        r.pop("case", None)
+                        r["extra_viols"] = [[x[0], str(x[1])[:2000]] for x in r.get("extra_viols", [])][:10]
+                        line = json.dumps(r, default=str)
+                    lf.write(line + "\n")
     except OSError:
         pass
     lost = n - done - cut
